@@ -11,11 +11,19 @@ tie        : Gen/Emulations.lean regenerated from /repo on every run (tools/gen_
               vs their assumed meaning `duck…` on generated inputs
    stream C : sparkSpec_f  vs  values recorded from live PySpark 3.5.9 (tools/oracle/spark_values.json);
               thorough tier: a live JVM on fresh (seeded) inputs, falling back to the recording
-search     : sqlframe on DuckDB (real code)  vs  emul_f (model)  vs  Spark's value, on the recorded cases and on
-             seeded random cases
+   stream D : every COLUMN PROGRAM (let-bindings that reuse kept columns: F.when / .when / .otherwise / operators)
+              on shared objects  vs  on fresh objects  vs  the heap model  vs  PySpark's immutable meaning
+   stream E : purity probes: every public Column method on 11 receiver shapes (receiver and earlier derived columns
+              must render the same SQL afterwards); every exported function leaves its Column arguments alone
+search     : sqlframe on DuckDB (real code)  vs  emul_f (model)  vs  Spark's value, on the recorded cases (every
+             emulation of the dispatch table, every optional-argument form, thresholds at / next to the distance,
+             every arrangement of empty and non-empty format segments, shared-prefix programs) and on seeded random
+             cases; failing column programs are shrunk (steps, rows)
 NOT decided: the values of functions passed through to the engine / to sqlglot's function mapping
-             ("native").  They are still compared with recorded Spark values, and mismatches are listed in
-             evidence as unclaimed observations — never as violations, never as proved.
+             ("native").  They are compared with recorded Spark values; the disagreements of the UNCHANGED tree are
+             unclaimed observations (c17_native_observations.json) — never proved, never violations.  Engine and
+             sqlglot being pinned, any OTHER disagreement of a pass-through function is a change of sqlframe's and is
+             reported with its concrete input.
 """
 from __future__ import annotations
 
@@ -42,8 +50,8 @@ import c17_cases as K  # noqa: E402
 ID = "C17"
 LEVEL = "proof"
 MODULES = ["SqlframeModel.Props.C17"]
-GEN = ["Emulations"]
-SOURCES = ["SqlframeModel/Props/C17.lean", "SqlframeModel/Impl/C17.lean", "SqlframeModel/Impl/C17Soundex.lean"]
+GEN = ["Emulations", "EmulCompose"]
+SOURCES = ["SqlframeModel/Props/C17.lean", "SqlframeModel/Impl/C17.lean", "SqlframeModel/Impl/C17Soundex.lean", "SqlframeModel/Impl/C17Compose.lean", "SqlframeModel/Lemmas/C17Compose.lean"]
 ORACLE = os.path.join(vlib.VERIF, "tools", "oracle", "spark_values.json")
 
 # ------------------------------------------------------------------------------------------------
@@ -61,8 +69,51 @@ def to_req(c: dict) -> t.Optional[dict]:
     if any("e" in a or "r" in a for a in c["args"]):
         return None  # compositions and aggregations are compared by value only
     fn, args = c["fn"], [_arg(a) for a in c["args"]]
-    if c.get("tag") == "null-in" and fn != "array_position":
+    if fn == "prog":
+        if any(st["op"] in ("isNull", "cast") for st in c["prog"]):
+            # boolean-valued step / a step that copies the tree it is applied to (sqlglot's exp.cast): compared by
+            # value only (shared vs fresh objects, recorded Spark)
+            return None
+        steps = []
+        for st in c["prog"]:
+            d = {"op": st["op"]}
+            if st.get("on") is not None:
+                d["on"] = st["on"]
+            if "cond" in st:
+                d["cmp"], d["k"] = st["cond"]
+            if "k" in st:
+                d["k"] = st["k"]
+            if "val" in st:
+                d["v"] = st["val"]
+            steps.append(d)
+        return {"op": "prog", "prog": steps, "rows": c["rows"]}
+    if c.get("tag") == "null-in" and fn not in ("array_position", "levenshtein", "nanvl"):
         return None
+    if fn == "levenshtein":
+        if not all(a is None or (isinstance(a, str) and a.isascii()) for a in args[:2]):
+            return None
+        r = {"op": "levenshtein", "str": args[0], "rep": args[1]}
+        if len(args) > 2:
+            r["k"] = args[2]
+        return r
+    if fn == "format_string":
+        cols = []
+        for a in c["args"][1:]:
+            v = _arg(a)
+            if not isinstance(v, (str, int, float)):
+                return None  # only scalar columns have a text the model can splice
+            cols.append(v if isinstance(v, str) else ("true" if v is True else "false" if v is False else repr(v)))
+        return {"op": "format_string", "str": args[0], "strs": cols}
+    if fn == "nanvl":
+        def enc(v):
+            return None if v is None else ("nan" if v != v else repr(float(v)))
+        return {"op": "nanvl", "ostrs": [enc(args[0]), enc(args[1])]}
+    if fn == "dayofweek":
+        d = args[0]["date"] if isinstance(args[0], dict) else args[0]
+        try:
+            return {"op": "dayofweek", "d": datetime.date.fromisoformat(d).toordinal()}
+        except Exception:  # noqa
+            return None
     if fn == "soundex":
         # the model's correspondence with util.soundex is claimed for ASCII strings (no NFKD, ASCII upper-casing)
         return {"op": "soundex", "str": args[0]} if isinstance(args[0], str) and args[0].isascii() else None
@@ -97,9 +148,23 @@ def to_req(c: dict) -> t.Optional[dict]:
     return None
 
 
+RAISES = {"raises": True}  # the model's answer when the call itself fails (format_string_with_pipes: IndexError / ValueError)
+
+
+def impl_is(r: dict, v: t.Any, unordered: bool) -> bool:
+    """the implementation's outcome r = {"value"} | {"error"} is the (model / expected) value v"""
+    if v == RAISES:
+        return "error" in r and str(r["error"]).startswith("build:")
+    return "value" in r and K.same_value(r["value"], v, unordered)
+
+
 def model_value(c: dict, o: dict, key: str) -> t.Any:
     """driver output -> the canonical value form of c17_cases.canon"""
     v = o[key]
+    if c["fn"] == "format_string":
+        return RAISES if v is None else v
+    if c["fn"] == "nanvl":
+        return None if v is None else {"f": "nan" if v == "nan" else float(v)}
     if c["fn"] in ("date_add", "date_sub"):
         return {"date": datetime.date.fromordinal(v).isoformat()} if v is not None else None
     if c["fn"] == "rint":
@@ -175,6 +240,13 @@ def stream_b(ctx: Ctx, n: int) -> t.Tuple[int, t.List[str]]:
         k = rng.randint(0, 20)
         reqs.append({"op": "duck_factorial", "n": k})
         sqls.append(f"SELECT CAST(factorial({k}) AS HUGEINT)")
+        a = "".join(rng.choice("abcd") for _ in range(rng.randint(0, 7)))
+        b = K.random_edit(rng, a) if rng.random() < 0.6 else "".join(rng.choice("abcd") for _ in range(rng.randint(0, 7)))
+        reqs.append({"op": "duck_levenshtein", "str": a, "rep": b})
+        sqls.append(f"SELECT levenshtein('{a}', '{b}')")
+        d = datetime.date(1990, 1, 1) + datetime.timedelta(days=rng.randint(0, 20000))
+        reqs.append({"op": "duck_dayofweek", "d": d.toordinal()})
+        sqls.append(f"SELECT dayofweek(DATE '{d.isoformat()}')")
     outs = vlib.run_driver(ID, [dict(r, case=i) for i, r in enumerate(reqs)])
     bad = []
     for r, q, o in zip(reqs, sqls, outs):
@@ -289,12 +361,113 @@ def stream_a(ctx: Ctx) -> t.Tuple[int, t.List[str]]:
         if got != want:
             bad.append(f"overlay(s, r, 3, 2): real DuckDB SQL {got!r} vs the model's shape {want!r}")
 
+    n3, bad3 = stream_a_compose(ctx, consts)
+    n += n3
+    bad += bad3
+
     # the dispatch table vs the running code: which alternative does each DuckDB function really call?
     disp = outs[-1]
     n2, bad2 = check_dispatch(disp["rows"])
     if disp.get("unaccounted"):
         bad.append(f"dispatch rows not accounted for by the model: {disp['unaccounted'][:8]}")
     return n + n2, bad + bad2
+
+
+def _dpipe_operands(e: t.Any) -> t.List[t.Tuple[str, str]]:
+    from sqlglot import exp
+
+    if isinstance(e, exp.DPipe):
+        return _dpipe_operands(e.this) + _dpipe_operands(e.expression)
+    if isinstance(e, exp.Literal):
+        return [("seg", str(e.this))]
+    if isinstance(e, exp.Column):
+        return [("arg", e.name)]
+    return [("other", e.sql())]
+
+
+def stream_a_compose(ctx: Ctx, consts: t.Dict[str, t.Any]) -> t.Tuple[int, t.List[str]]:
+    """each definition of Gen/EmulCompose.lean against the object the running code builds"""
+    from sqlglot import exp
+
+    from sqlframe.duckdb import functions as F
+
+    bad: t.List[str] = []
+    n = 0
+    # levenshtein's CASE
+    e = F.levenshtein("a", "b", 3).expression.unalias()
+    n += 1
+    try:
+        assert isinstance(e, exp.Case) and len(e.args["ifs"]) == 1
+        w = e.args["ifs"][0]
+        cond = w.this
+
+        def operand(x: t.Any) -> str:
+            return "distance" if isinstance(x, exp.Levenshtein) else ("threshold" if isinstance(x, exp.Literal) and str(x.this) == "3" else x.sql())
+
+        real = {"levThresholdCmp": type(cond).__name__.upper(), "levThresholdLeft": operand(cond.this), "levThresholdRight": operand(cond.expression), "levThresholdThen": operand(w.args["true"]), "levThresholdElse": int(e.args["default"].sql())}
+        gen = {k: consts.get(k) for k in real}
+        if real != gen:
+            bad.append(f"levenshtein(a, b, 3): the running code builds {real}, Gen.EmulCompose says {gen}")
+    except Exception as ex:  # noqa
+        bad.append(f"levenshtein(a, b, 3): the running code builds {e.sql()!r}, which is not the CASE Gen.EmulCompose describes ({type(ex).__name__})")
+    if F.levenshtein("a", "b").expression.unalias().sql(dialect="duckdb") != "LEVENSHTEIN(a, b)":
+        bad.append("levenshtein(a, b) without a threshold is no longer the bare engine function")
+    # format_string_with_pipes: operand sequence of the real `||` chain vs the model's split + pieces
+    rng = ctx.rng
+    fmts = ["%s", "%s%s", "a%sb%dc", "%d%s", "k=%s%s%d;", "%%s%s", "x%%d%s%s", "%s%", "%"]
+    for _ in range(60 if ctx.thorough else 25):
+        k = rng.randint(1, 4)
+        fmts.append("".join(rng.choice(["", "", "a", "k=", " ", "%%", "%", "-"]) + rng.choice(["%s", "%d"]) for _ in range(k)) + rng.choice(["", "", ";", "%"]))
+    splits = vlib.run_driver(ID, [{"case": i, "op": "split_fmt", "str": f} for i, f in enumerate(fmts)])
+    pieces = {k: consts.get(k) for k in ("fmtInit", "fmtLast", "fmtMid")}
+    for f, o in zip(fmts, splits):
+        values = o.get("prim")
+        ncols = len(values) - consts.get("fmtArityOffset", 1)
+        if ncols < 1 or None in pieces.values():
+            continue
+        n += 1
+        cols = [f"c{i}" for i in range(ncols)]
+        try:
+            real_ops = _dpipe_operands(F.format_string(f, *cols).expression.unalias())
+        except Exception as ex:  # noqa
+            bad.append(f"format_string({f!r}, {ncols} columns): the model splits into {values} and expects a splice, the running code raises {type(ex).__name__}")
+            continue
+
+        def emit(ps: t.List[str], i: int) -> t.List[t.Tuple[str, str]]:
+            return [("seg", values[i]) if p == "seg" else ("arg", cols[i]) for p in ps]
+
+        want = emit(pieces["fmtInit"], 0)
+        for i in range(1, len(values)):
+            want += emit(pieces["fmtLast"] if i == ncols else pieces["fmtMid"], i)
+        # `x || ''` is x: empty text operands carry no value and are not compared
+        if [o for o in real_ops if o != ("seg", "")] != [o for o in want if o != ("seg", "")]:
+            bad.append(f"format_string({f!r}, {', '.join(cols)}): the running code joins {real_ops}, the model {want}")
+    # Column.when / Column.otherwise: copy discipline observed on live objects
+    x = F.col("x")
+    for meth, flag, call in (("when", "whenCopiesReceiver", lambda b: b.when(x < 0, -1)), ("otherwise", "otherwiseCopiesReceiver", lambda b: b.otherwise(0))):
+        base = F.when(x > 0, 1)
+        before = base.expression.sql()
+        d = call(base)
+        live = (d.expression is not base.expression) and base.expression.sql() == before and not any(node is base.expression for node in d.expression.walk())
+        n += 1
+        if live != consts.get(flag):
+            bad.append(f"Column.{meth}: on live objects the receiver is {'copied' if live else 'written / handed back'}, Gen.EmulCompose.{flag} = {consts.get(flag)}")
+    n += 1
+    if not isinstance(F.col("x").when(x > 0, 1).expression.unalias(), exp.Case):
+        bad.append("Column.when on a non-CASE receiver does not start a fresh CASE")
+    # nanvl / dayofweek shapes
+    n += 2
+    neg = "NOT " if consts.get("nanvlNegated") else ""
+    nm = {"col1": "a", "col2": "b"}
+    want = f"CASE WHEN {neg}ISNAN({nm.get(consts.get('nanvlTested'))}) THEN {nm.get(consts.get('nanvlThen'))} ELSE {nm.get(consts.get('nanvlElse'))} END"
+    got = F.nanvl("a", "b").expression.unalias().sql(dialect="duckdb")
+    if got.replace("NOT (ISNAN(a))", "NOT ISNAN(a)") != want:
+        bad.append(f"nanvl(a, b): real DuckDB SQL {got!r} vs the model's shape {want!r}")
+    got = F.dayofweek("d").expression.unalias().sql(dialect="duckdb")
+    k = consts.get("dayofweekDuckAddend")
+    if not (got.startswith("(DAYOFWEEK(") and got.endswith(f" + {k})")):
+        bad.append(f"dayofweek(d): real DuckDB SQL {got!r} is not (DAYOFWEEK(…) + {k})")
+    return n, bad
 
 
 def gen_constants() -> t.Dict[str, t.Any]:
@@ -309,6 +482,25 @@ def gen_constants() -> t.Dict[str, t.Any]:
         src = gen_c17.gen_emulations(vlib.REPO)
     except Exception:  # noqa
         return out
+    try:
+        src2 = gen_c17.gen_compose(vlib.REPO)
+    except Exception:  # noqa
+        # untranslatable now: the constants the model RUNS on are the baseline translation's
+        try:
+            src2 = open(os.path.join(vlib.VERIF, "lean", "GenBaseline", "EmulCompose.lean")).read()
+        except Exception:  # noqa
+            src2 = ""
+    for m in re.finditer(r'^def (\w+) : String := "([^"]*)"$', src2, flags=re.M):
+        out[m.group(1)] = m.group(2)
+    for m in re.finditer(r"^def (\w+) : (?:Int|Nat) := (-?\d+)$", src2, flags=re.M):
+        out[m.group(1)] = int(m.group(2))
+    for m in re.finditer(r"^def (\w+) : Bool := (\w+)$", src2, flags=re.M):
+        out[m.group(1)] = m.group(2) == "true"
+    for m in re.finditer(r"^def (\w+) : List FmtPiece := \[(.*)\]$", src2, flags=re.M):
+        out[m.group(1)] = [x.strip().split(".")[-1] for x in m.group(2).split(",") if x.strip()]
+    m = re.search(r"^def columnSelfWriters : List String := \[(.*)\]$", src2, flags=re.M)
+    if m:
+        out["columnSelfWriters"] = [x.strip().strip('"') for x in m.group(1).split(",") if x.strip()]
     for m in re.finditer(r"^def (\w+) : Int := (-?\d+)$", src, flags=re.M):
         out[m.group(1)] = int(m.group(2))
     m = re.search(r"^def sequenceDefaultStep \(a b : Int\) : Int := (.+)$", src, flags=re.M)
@@ -334,6 +526,7 @@ def check_dispatch(rows: t.List[t.Any]) -> t.Tuple[int, t.List[str]]:
     T.install_stubs(vlib.REPO)
     session()
     import sqlframe.base.function_alternatives as FA
+    from sqlframe.base.column import Column
     from sqlframe.duckdb import functions as F
 
     table = {r[0]: r[1][1] for r in rows}
@@ -371,7 +564,12 @@ def check_dispatch(rows: t.List[t.Any]) -> t.Tuple[int, t.List[str]]:
                     else:
                         sub = 0
                         args, kwargs = T.build_call(F, fname, sig, tgt, sub, T.dummy_for(F, fname, tgt, 0), variant)
+                        cols_in = [a for a in list(args) + list(kwargs.values()) if isinstance(a, Column)]
+                        before = [a.expression.sql() for a in cols_in]
                         f(*args, **kwargs)
+                        after = [a.expression.sql() for a in cols_in]
+                        if before != after:
+                            bad.append(f"purity: {fname}({variant}) wrote into a Column argument: {before} -> {after}")
                     ok = True
                 except Exception:  # noqa
                     continue
@@ -389,6 +587,192 @@ def check_dispatch(rows: t.List[t.Any]) -> t.Tuple[int, t.List[str]]:
         for name, fn in originals.items():
             setattr(FA, name, fn)
     return n, bad
+
+
+# ------------------------------------------------------------------------------------------------
+# stream D: columns are values — programs with SHARED column objects vs the same programs on fresh objects;
+# stream E: no Column method / function writes into the columns it is given (purity probes)
+# ------------------------------------------------------------------------------------------------
+
+
+def run_impl_fresh(progs: t.List[dict]) -> t.List[dict]:
+    s = session()
+    from sqlframe.duckdb import functions as F
+
+    return [K.evaluate_prog(F, lambda rows, schema: s.createDataFrame(rows, schema), c, fresh=True) for c in progs]
+
+
+def prog_reference(progs: t.List[dict]) -> t.List[t.Any]:
+    """what PySpark's immutable columns make of each program: the Lean specification where the program is inside
+    the model, else the same program built from fresh objects"""
+    reqs = [to_req(c) for c in progs]
+    outs: t.Dict[int, t.Any] = {}
+    live = [(i, r) for i, r in enumerate(reqs) if r is not None]
+    if live:
+        try:
+            for (i, _), o in zip(live, vlib.run_driver(ID, [dict(r, case=i) for i, r in live])):
+                if "spec" in o:
+                    outs[i] = o["spec"]
+        except Exception:  # noqa
+            pass
+    rest = [i for i in range(len(progs)) if i not in outs]
+    for i, r in zip(rest, run_impl_fresh([progs[i] for i in rest])):
+        outs[i] = r.get("value", {"error": r.get("error")})
+    return [outs[i] for i in range(len(progs))]
+
+
+def _reindex(prog: t.List[dict], drop: int) -> t.Optional[t.List[dict]]:
+    """the program without step `drop`; steps that referred to it now refer to what IT referred to (or vanish)"""
+    out: t.List[dict] = []
+    for j, st in enumerate(prog):
+        if j == drop:
+            continue
+        st = dict(st)
+        on = st.get("on")
+        if on is not None:
+            if on == drop:
+                if prog[drop].get("on") is None:
+                    return None
+                on = prog[drop]["on"]
+            st["on"] = on - 1 if on > drop else on
+        out.append(st)
+    return out if out and K.prog_valid(out) else None
+
+
+def shrink_prog(c: dict) -> dict:
+    """greedy: drop steps, then rows, while the shared-object program still differs from its reference"""
+
+    def failing(cands: t.List[dict]) -> t.Optional[dict]:
+        if not cands:
+            return None
+        got = run_impl(cands)
+        ref = prog_reference(cands)
+        for cand, g, r in zip(cands, got, ref):
+            if not impl_is(g, r, False):
+                return cand
+        return None
+
+    cur = c
+    for _ in range(40):
+        cands = []
+        for j in range(len(cur["prog"]) - 1, -1, -1):
+            p2 = _reindex(cur["prog"], j)
+            if p2 is not None:
+                cands.append(dict(cur, prog=p2))
+        nxt = failing(cands)
+        if nxt is None:
+            break
+        cur = nxt
+    for _ in range(20):
+        cands = [dict(cur, rows=cur["rows"][:j] + cur["rows"][j + 1 :]) for j in range(len(cur["rows"])) if len(cur["rows"]) > 1]
+        nxt = failing(cands)
+        if nxt is None:
+            break
+        cur = nxt
+    return cur
+
+
+def stream_d(ctx: Ctx, progs: t.List[dict], shared: t.List[dict]) -> t.Tuple[int, t.List[t.Tuple[dict, t.Any, t.Any]]]:
+    """every program once more on FRESH objects (each binding rebuilt from scratch): PySpark's columns are immutable,
+    so the two runs must agree binding by binding"""
+    fresh = run_impl_fresh(progs)
+    bad = []
+    for c, a, b in zip(progs, shared, fresh):
+        if "value" in b and not impl_is(a, b["value"], False):
+            bad.append((c, a.get("value", {"error": a.get("error")}), b["value"]))
+    return len(progs), bad
+
+
+def _receivers(F: t.Any) -> t.List[t.Tuple[str, t.Callable[[], t.Any]]]:
+    from sqlframe.base.window import Window
+
+    x = lambda: F.col("x")  # noqa: E731
+    return [
+        ("col('x')", x),
+        ("when(x > 0, 1)", lambda: F.when(x() > 0, 1)),
+        ("when(x > 0, 1).when(x < 0, -1)", lambda: F.when(x() > 0, 1).when(x() < 0, -1)),
+        ("when(x > 0, 1).otherwise(0)", lambda: F.when(x() > 0, 1).otherwise(0)),
+        ("(x + 1)", lambda: x() + 1),
+        ("abs(x)", lambda: F.abs(x())),
+        ("x.alias('a')", lambda: x().alias("a")),
+        ("x.cast('bigint')", lambda: x().cast("bigint")),
+        ("lit(5)", lambda: F.lit(5)),
+        ("sum(x).over(w)", lambda: F.sum(x()).over(Window.partitionBy("g").orderBy("x"))),
+        ("coalesce(x, lit(0))", lambda: F.coalesce(x(), F.lit(0))),
+    ]
+
+
+def _method_args(F: t.Any, name: str) -> t.Optional[t.Tuple[tuple, dict]]:
+    from sqlframe.base.window import Window
+
+    one = {
+        "when": (F.col("y") < 0, -1), "otherwise": (0,), "alias": ("n",), "cast": ("bigint",), "eqNullSafe": (1,), "startswith": ("a",),
+        "endswith": ("a",), "rlike": ("a",), "like": ("a%",), "ilike": ("a%",), "substr": (1, 2), "isin": (1, 2), "between": (1, 3),
+        "over": (Window.partitionBy("g").orderBy("y"),), "getItem": (0,), "getField": ("f",), "set_table_name": ("t",),
+        "__pow__": (2,), "__rpow__": (2,), "name": ("n",), "astype": ("bigint",), "bitwiseAND": (1,), "bitwiseOR": (1,), "bitwiseXOR": (1,),
+        "contains": ("a",), "withField": ("f", F.lit(1)), "dropFields": ("f",), "binary_op": None, "inverse_binary_op": None, "unary_op": None,
+        "sql": (), "copy": (),
+    }
+    if name in one:
+        return None if one[name] is None else (tuple(one[name]), {})
+    return None
+
+
+def stream_e(ctx: Ctx) -> t.Tuple[int, t.List[dict], t.Dict[str, t.Any]]:
+    """call every public method of Column on receivers of several shapes and see whether the receiver (or a column
+    derived from it earlier) still renders the same SQL; likewise the Column arguments of every exported function"""
+    import inspect
+
+    session()
+    from sqlframe.base.column import Column
+    from sqlframe.duckdb import functions as F
+
+    n = 0
+    bad: t.List[dict] = []
+    writers: t.Set[str] = set()
+    names = []
+    for name, member in inspect.getmembers(Column):
+        if not callable(member) or isinstance(inspect.getattr_static(Column, name), (classmethod, staticmethod, property)):
+            continue
+        if name.startswith("_") and not (name.startswith("__") and name.endswith("__")):
+            continue
+        if name in ("__init__", "__new__", "__repr__", "__hash__", "__getattr__", "__call__", "__class__", "__init_subclass__", "__subclasshook__", "__getattribute__", "__setattr__", "__delattr__", "__dir__", "__format__", "__reduce__", "__reduce_ex__", "__sizeof__", "__str__", "__getstate__", "__bool__", "__iter__"):
+            continue
+        names.append(name)
+    skipped: t.List[str] = []
+    for name in names:
+        for rname, mk in _receivers(F):
+            recv = mk()
+            earlier = [(-recv), recv.alias("e")] if rname != "sum(x).over(w)" else [recv.alias("e")]
+            before = [recv.expression.sql()] + [e.expression.sql() for e in earlier]
+            try:
+                m = getattr(recv, name)
+                am = _method_args(F, name)
+                if am is not None:
+                    args, kwargs = am
+                else:
+                    sig = inspect.signature(m)
+                    req = [p for p in sig.parameters.values() if p.default is inspect.Parameter.empty and p.kind in (p.POSITIONAL_ONLY, p.POSITIONAL_OR_KEYWORD)]
+                    args, kwargs = tuple(1 for _ in req), {}
+                res = m(*args, **kwargs)
+            except Exception:  # noqa
+                if rname == "col('x')":
+                    skipped.append(name)
+                continue
+            n += 1
+            after = [recv.expression.sql()] + [e.expression.sql() for e in earlier]
+            aliased = isinstance(res, Column) and res.expression is recv.expression and name not in ("set_table_name",)
+            if before != after:
+                writers.add(name)
+                bad.append({"method": name, "receiver": rname, "args": repr(args), "receiver_sql_before": before[0], "receiver_sql_after": after[0], "earlier_derived_before": before[1:], "earlier_derived_after": after[1:]})
+            elif aliased and name in ("when", "otherwise"):
+                bad.append({"method": name, "receiver": rname, "args": repr(args), "result_is_receivers_own_expression_object": True})
+    info = {"column_methods_probed": len(names), "column_methods_not_callable_with_dummies": sorted(set(skipped)), "methods_that_wrote_into_the_receiver": sorted(writers)}
+    return n, bad, info
+
+
+ORDER_UNSTABLE = {"array_distinct", "array_union", "array_intersect", "array_except", "collect_set", "map_keys", "map_values", "map_entries"}
+PURITY_API_EXEMPT = {"set_table_name"}  # sqlframe-internal, not part of PySpark's Column API (copy=False is its documented default)
 
 
 # ------------------------------------------------------------------------------------------------
@@ -418,6 +802,55 @@ def live_spark(cases: t.List[dict], startup_timeout: int = 60) -> t.Optional[t.L
 # ------------------------------------------------------------------------------------------------
 
 
+def coverage_audit(cases: t.List[dict], disp_rows: t.Dict[str, str]) -> t.Dict[str, t.Any]:
+    """which exported DuckDB functions no case calls at all, and which are never called with an optional parameter"""
+    import inspect
+
+    import c16_trace as T
+
+    T.install_stubs(vlib.REPO)
+    arities: t.Dict[str, t.Set[int]] = {}
+
+    def walk(args: t.List[dict]) -> None:
+        for a in args:
+            if "e" in a:
+                arities.setdefault(a["e"]["fn"], set()).add(len(a["e"]["args"]))
+                walk(a["e"]["args"])
+
+    for c in cases:
+        arities.setdefault(c["fn"], set()).add(len(c["args"]) + len(c.get("xargs", [])))
+        walk(c["args"])
+        for k in ("pre", "post"):
+            if c.get(k):
+                arities.setdefault(c[k], set()).add(1)
+    no_case, no_optional = [], []
+    for f, fn in sorted(T.exported("duckdb").items()):
+        if disp_rows.get(f) == "unsupported":
+            continue
+        try:
+            ps = [p for p in inspect.signature(fn).parameters.values() if p.kind in (p.POSITIONAL_ONLY, p.POSITIONAL_OR_KEYWORD)]
+        except (TypeError, ValueError):
+            continue
+        req = len([p for p in ps if p.default is inspect.Parameter.empty])
+        opt = [p.name for p in ps if p.default is not inspect.Parameter.empty]
+        if f not in arities:
+            no_case.append(f)
+        elif opt and max(arities[f]) <= req:
+            no_optional.append(f"{f}({', '.join(opt)})")
+    return {
+        "emulations_of_the_dispatch_table_without_a_case": [f for f in no_case if disp_rows.get(f)],
+        "pass_through_functions_without_a_case": [f for f in no_case if not disp_rows.get(f)],
+        "functions_whose_optional_parameters_no_case_passes": no_optional,
+    }
+
+
+def _safe(f: t.Callable[[], t.Any]) -> t.Any:
+    try:
+        return f()
+    except Exception as e:  # noqa
+        return f"not computed: {type(e).__name__}: {str(e)[:120]}"
+
+
 def local_known() -> t.Dict[str, dict]:
     known = {e["id"]: e for e in vlib.known_findings(ID)}
     path = os.path.join(HERE, "c17.known.json")
@@ -442,14 +875,30 @@ def show_case(c: dict) -> str:
 
     if c["args"] and "r" in c["args"][0]:
         inner = f"{c['pre']}(v)" if c.get("pre") else "v"
-        s = f"{c['fn']}({inner})"
+        s = f"{c['fn']}({', '.join([inner] + [repr(x) for x in c.get('xargs', [])])})"
         if c.get("post"):
             s = f"{c['post']}({s})"
         return f"groupBy(g).agg({s})  where v = {a(c['args'][0])}"
 
     if c["fn"] == "getItem":
         return f"{a(c['args'][0])}.getItem({a(c['args'][1])})"
+    if c["fn"] == "prog":
+        return show_prog(c["prog"]) + f"   over rows x = {c['rows']!r}"
     return f"{c['fn']}(" + ", ".join(a(x) for x in c["args"]) + ")"
+
+
+def show_prog(prog: t.List[dict]) -> str:
+    out = ["x = col('x')"]
+    for j, st in enumerate(prog):
+        cond = f"x {st['cond'][0]} {st['cond'][1]}" if "cond" in st else ""
+        b = f"b{st['on']}" if st.get("on") is not None else ""
+        rhs = {
+            "start": f"when({cond}, lit({st.get('val')}))", "when": f"{b}.when({cond}, lit({st.get('val')}))", "otherwise": f"{b}.otherwise(lit({st.get('val')}))",
+            "neg": f"-{b}", "add": f"{b} + {st.get('k')}", "mul": f"{b} * {st.get('k')}", "abs": f"abs({b})", "alias": f"{b}.alias({st.get('name')!r})",
+            "cast": f"{b}.cast('bigint')", "coalesce": f"coalesce({b}, lit({st.get('k')}))", "isNull": f"{b}.isNull()",
+        }.get(st["op"], st["op"])
+        out.append(f"b{j} = {rhs}")
+    return "; ".join(out) + f"; select(b0 … b{len(prog) - 1})"
 
 
 def run(ctx: Ctx) -> None:
@@ -464,10 +913,11 @@ def run(ctx: Ctx) -> None:
     def _key(c: dict) -> str:
         return json.dumps([c["fn"], c["args"], c.get("pre"), c.get("post")], sort_keys=True)
 
+    _key = K.case_key
     stale = [c["id"] for c in fixed if c["id"] not in rec_by_id or _key(rec_by_id[c["id"]]) != _key(c)]
     if stale:
         ctx.broken.append(f"tools/oracle/spark_values.json is stale for {len(stale)} cases (re-record it): {stale[:3]}")
-    n_rand = 1500 if ctx.thorough else 260
+    n_rand = 2200 if ctx.thorough else 420
     rand = K.random_emulation_cases(ctx.rng, n_rand)
 
     # Spark values: recorded for the fixed cases; for the random ones the JVM (thorough) or none
@@ -499,7 +949,8 @@ def run(ctx: Ctx) -> None:
         for (i, _), o in zip(reqs, outs):
             if "err" in o:
                 raise RuntimeError(str(o))
-            model[i] = o
+            if not o.get("unmodelled"):
+                model[i] = o
     except Exception as e:  # noqa
         ctx.broken.append(f"driver C17 failed: {str(e)[:200]}")
 
@@ -520,14 +971,16 @@ def run(ctx: Ctx) -> None:
         if m is not None:
             ev, sv = model_value(c, m, "emul"), model_value(c, m, "spec")
             in_domain = not (c["fn"] == "factorial" and not (0 <= _arg(c["args"][0]) <= 20))
-            if has_spark:
+            if has_spark and sv != RAISES:  # RAISES on the spec side = a format the specification's formatter does not model
                 n_spec_checked += 1
                 if not K.same_value(sv, spv, c["unordered"]):
                     spec_bad.append((c, sv, spv))
-            if in_domain and not ("value" in r and K.same_value(ev, r["value"], c["unordered"])):
+            if in_domain and not impl_is(r, ev, c["unordered"]):
                 model_bad.append((c, ev, iv))
             ref = spv if has_spark else sv
-            if in_domain and not ("value" in r and K.same_value(r["value"], ref, c["unordered"])):
+            if ref == RAISES:
+                continue  # a format outside the specification's formatter and without a recorded Spark value: no reference
+            if in_domain and not impl_is(r, ref, c["unordered"]):
                 failing.append((c, iv, ref, m, ev))
         elif has_spark:
             agree = "value" in r and K.same_value(r["value"], spv, c["unordered"])
@@ -551,24 +1004,45 @@ def run(ctx: Ctx) -> None:
         bad_a = [f"stream A crashed: {type(e).__name__}: {str(e)[:200]}"]
     if bad_a:
         ctx.broken.append(f"stream A (real expression / SQL / dispatch vs the model's shape): {len(bad_a)} differ; first: {bad_a[0]}")
+    prog_idx = [i for i, c in enumerate(cases) if c["fn"] == "prog"]
+    nd, bad_d = 0, []
+    ne, bad_e, info_e = 0, [], {}
+    try:
+        nd, bad_d = stream_d(ctx, [cases[i] for i in prog_idx], [impl[i] for i in prog_idx])
+    except Exception as e:  # noqa
+        ctx.broken.append(f"stream D crashed: {type(e).__name__}: {str(e)[:200]}")
+    try:
+        ne, bad_e, info_e = stream_e(ctx)
+        writers = set(info_e.get("methods_that_wrote_into_the_receiver", []))
+        gen_writers = set(gen_constants().get("columnSelfWriters", []))
+        if not writers <= gen_writers:
+            ctx.broken.append(f"stream E: Column methods {sorted(writers - gen_writers)} write into their receiver on live objects but Gen.EmulCompose.columnSelfWriters = {sorted(gen_writers)}")
+    except Exception as e:  # noqa
+        ctx.broken.append(f"stream E crashed: {type(e).__name__}: {str(e)[:200]}")
     log(f"C17: streams done, {ctx.elapsed():.1f}s; broken={ctx.broken}")
 
     # classify failing inputs of modelled emulations
     new_viol = []
     hits: t.Dict[str, int] = collections.Counter()
     for c, iv, ref, m, ev in failing:
-        predicted = not isinstance(iv, dict) or "error" not in iv
-        predicted = predicted and K.same_value(ev, iv, c["unordered"])
+        predicted = (ev == RAISES and isinstance(iv, dict) and str(iv.get("error", "")).startswith("build:")) or (
+            not (isinstance(iv, dict) and "error" in iv) and K.same_value(ev, iv, c["unordered"])
+        )
         if predicted and m["scope"] and all(h in known for h in m["scope"]):
             for h in m["scope"]:
                 hits[h] += 1
         else:
             new_viol.append((c, iv, ref, m.get("scope"), ev))
+    # programs whose shared-object run differs from the fresh-object run (and that the loop above did not already list)
+    listed = {id(x[0]) for x in new_viol}
+    for c, shared_v, fresh_v in bad_d:
+        if id(c) not in listed:
+            new_viol.append((c, shared_v, fresh_v, None, None))
     # failing inputs of unmodelled emulations (sqlframe's own composition, compared by value only)
     for c, iv, spv in emul_unmodelled_fail:
         # a known finding of an unmodelled emulation names the EXACT failing cases (function, arguments, pre, post):
         # any other failing input of the same function is a new violation
-        ck = json.dumps([c["fn"], c["args"], c.get("pre"), c.get("post")], sort_keys=True)
+        ck = json.dumps([c["fn"], c["args"], c.get("pre"), c.get("post")] + ([c["xargs"]] if "xargs" in c else []), sort_keys=True)
         ks = [h for h, e in known.items() if ck in {json.dumps(k, sort_keys=True) for k in e.get("known_cases", [])}]
         if ks:
             for h in ks:
@@ -594,11 +1068,33 @@ def run(ctx: Ctx) -> None:
     except Exception as e:  # noqa
         ctx.broken.append(f"BigQuery factorial table check failed: {type(e).__name__}: {str(e)[:160]}")
 
+    # pass-through functions: their values are the engine's / sqlglot's and are not claimed — but the engine and sqlglot are
+    # pinned, so a recorded case that agreed with Spark on the unchanged tree and no longer does has been changed by
+    # sqlframe (argument order, optional-argument handling, a wrapper in the default body): a concrete failing input.
+    # The observations of the unchanged tree are listed in c17_native_observations.json (C17_RECORD_NATIVE_OBS=1 rewrites it).
+    obs_path = os.path.join(HERE, "c17_native_observations.json")
+    if os.environ.get("C17_RECORD_NATIVE_OBS") == "1":
+        json.dump({"_doc": "recorded cases of pass-through (engine-native) functions on which sqlframe on DuckDB 1.2.2 does not return PySpark 3.5.9's value on the unchanged tree: unclaimed observations (root cause in the engine / sqlglot), listed so that any OTHER disagreement of a pass-through function is reported as new",
+                   "observations": [{"key": K.case_key(c), "call": show_case(c), "sqlframe_on_duckdb": iv, "spark": spv} for c, iv, spv in native_obs]}, open(obs_path, "w"), indent=1, default=str)
+    listed_obs = set()
+    if os.path.exists(obs_path):
+        listed_obs = {o["key"] for o in json.load(open(obs_path)).get("observations", [])}
+    n_new_native = 0
+    for c, iv, spv in native_obs:
+        if K.case_key(c) in listed_obs:
+            continue
+        if c["fn"] in ORDER_UNSTABLE and isinstance(iv, list) and K.same_value(iv, spv, True):
+            continue  # the engine leaves the element order open: only a different SET of elements counts here
+        n_new_native += 1
+        new_viol.append((dict(c, group="native:changed"), iv, spv, None, None))
+    ctx.cov["native_cases_that_newly_disagree"] = n_new_native
+
     # failing-input search after a broken obligation: the value mismatches of the argument-order functions
     # (normally native, unclaimed) are now candidates — a swapped argument shows up here
     if ctx.broken:
+        already = {id(x[0]) for x in new_viol} | {K.case_key(x[0]) for x in new_viol}
         for c, iv, spv in native_obs:
-            if c["group"].startswith("argorder"):
+            if c["group"].startswith("argorder") and K.case_key(c) not in already:
                 new_viol.append((c, iv, spv, None, None))
     for h in sorted(hits):
         vlib.report_known(ctx, known[h], f"{known[h]['summary']} [{hits[h]} failing cases in this run]")
@@ -613,16 +1109,33 @@ def run(ctx: Ctx) -> None:
 
     reported = 0
     seen_fn = set()
-    for c, iv, ref, scope, ev in sorted(new_viol, key=lambda x: len(json.dumps(x[0]["args"], default=str))):
+    for b in bad_e:
+        if b["method"] in PURITY_API_EXEMPT or b["method"] in seen_fn or reported >= 5:
+            continue
+        seen_fn.add(b["method"])
+        vlib.report_violation(ctx, {"kind": "a Column method writes into the column it is called on (PySpark columns are immutable): the receiver, or a column derived from it earlier, renders different SQL afterwards", "purity_probe": b, "broken": ctx.broken})
+        reported += 1
+    seen_fn = set()
+    for c, iv, ref, scope, ev in sorted(new_viol, key=lambda x: len(json.dumps([x[0]["args"], x[0].get("prog")], default=str))):
         if c["fn"] in seen_fn or reported >= 5:
             continue
         seen_fn.add(c["fn"])
+        if c["fn"] == "prog":
+            try:
+                c = shrink_prog(c)
+                iv = run_impl([c])[0]
+                iv = iv.get("value", {"error": iv.get("error")})
+                ref = prog_reference([c])[0]
+                mo = vlib.run_driver(ID, [dict(to_req(c), case=0)])[0] if to_req(c) else {}
+                ev = mo.get("emul")
+            except Exception as e:  # noqa
+                log(f"C17: shrinking failed: {e}")
         vlib.report_violation(
             ctx,
             {
-                "kind": "the BigQuery factorial CASE table has a row that is not n!" if "bigquery" in c["group"] else ("sqlframe on DuckDB does not hand back the Python value PySpark returns (conversion of engine values to Rows)" if c["group"] == "emul:rowconv" else "sqlframe on DuckDB does not return Spark's value for an emulated function"),
+                "kind": "a column kept in a variable and used more than once does not mean what PySpark's immutable column means (every binding is evaluated after all were built)" if c["fn"] == "prog" else "the BigQuery factorial CASE table has a row that is not n!" if "bigquery" in c["group"] else ("sqlframe on DuckDB does not hand back the Python value PySpark returns (conversion of engine values to Rows)" if c["group"] == "emul:rowconv" else "a pass-through function no longer returns the recorded Spark value (it did on the unchanged tree; engine and sqlglot are pinned)" if c["group"] == "native:changed" else "sqlframe on DuckDB does not return Spark's value for an emulated function"),
                 "call": show_case(c),
-                "case": {k: c[k] for k in ("fn", "args", "group", "unordered", "pre", "post") if k in c},
+                "case": {k: c[k] for k in ("fn", "args", "group", "unordered", "pre", "post", "xargs", "prog", "rows", "tag") if k in c},
                 "sqlframe_on_duckdb": iv,
                 "spark": ref,
                 "model_emul": ev,
@@ -659,7 +1172,7 @@ def run(ctx: Ctx) -> None:
         obs[c["fn"]].append({"call": show_case(c), "sqlframe_on_duckdb": iv, "spark": spv})
     ctx.cov.update(
         {
-            "evaluations": len(cases) + nb + na,
+            "evaluations": len(cases) + nb + na + nd + ne,
             "distinct_nontrivial": len(nontrivial),
             "rule": "fixed case set recorded from live PySpark (emulated functions over index/length/step grids + a broad sample of native functions) plus seeded random cases of the modelled emulations; "
             "non-trivial = distinct (function, arguments) for which sqlframe on DuckDB returns a value other than NULL / [] / 0 / ''",
@@ -670,7 +1183,12 @@ def run(ctx: Ctx) -> None:
             "impl_vs_model_differ": len(model_bad),
             "impl_vs_spark_failing_modelled": len(failing),
             "impl_vs_spark_failing_unmodelled_emulations": len(emul_unmodelled_fail),
+            "coverage_audit": _safe(lambda: coverage_audit(cases, disp_rows)),
             "stream_b_primitive_checks": nb,
+            "stream_d_programs_shared_vs_fresh": nd,
+            "stream_d_differ": len(bad_d),
+            "stream_e_purity_probes": ne,
+            "stream_e": info_e,
             "stream_a_shape_checks": na,
             "jvm": jvm,
             "function_status": fn_status,
@@ -684,17 +1202,37 @@ def run(ctx: Ctx) -> None:
         "DuckDB 1.2.2 primitives mean what Impl/C17.lean `duck…` says (validated on generated inputs by stream B on every run)",
         "sqlglot renders a Spark-dialect Bracket index k for DuckDB as k + 1 and passes anonymous functions through unchanged (validated by stream A's SQL texts)",
         "Spark's values are those recorded from live PySpark 3.5.9 (local[1], UTC, ANSI off) in tools/oracle/spark_values.json" + ("; thorough tier: " + jvm if ctx.thorough else ""),
-        "the values of engine-native pass-through functions are NOT decided by this technique: see function_status (native/unclaimed) and native_unclaimed_observations",
+        "the values of engine-native pass-through functions are NOT decided by this technique: see function_status (native/unclaimed) and native_unclaimed_observations; a recorded native case outside tools/props/c17_native_observations.json (the disagreements of the unchanged tree) that disagrees with Spark is reported as a violation",
+        "DuckDB LEVENSHTEIN / DAYOFWEEK mean what duckLevenshtein / duckDayOfWeek say (stream B); `||` renders integer and text columns the way %d / %s do for the in-domain values used",
+        "sqlglot trees: a node handed to a new parent is shared, not copied (HExpr.un refers to the receiver's CASE object); exp.cast copies (programs with cast / isNull are compared by value only)",
         "the 'on Spark itself' clause is not exercised: sqlframe's SparkSession engine passes functions through to the same JVM (no emulation branch is taken for `_is_spark`, see Gen.Emul.dispatch)",
     ]
 
 
-OPEN_HYPOTHESES = {"slice": "H_sliceEnd", "sequence": "H_sequenceDefaultStep", "rint": "H_rintTies", "array_position": "H_arrayPositionNullArray"}
-MODELLED = {"soundex", "factorial", "element_at", "try_element_at", "slice", "array_position", "sequence", "rint", "log1p", "expm1", "overlay", "date_add", "date_sub", "array_min", "array_max", "locate", "instr", "lpad", "rpad", "substring"}
+OPEN_HYPOTHESES = {"slice": "H_sliceNegativeStart", "sequence": "H_sequenceDefaultStep", "rint": "H_rintTies", "array_position": "H_arrayPositionNullArray",
+                   "format_string": "H_formatPlainPlaceholders", "levenshtein": "H_levenshteinNullInput", "nanvl": "H_nanvlNullInput", "soundex": "H_soundexFirstLetter"}
+MODELLED = {"soundex", "factorial", "element_at", "try_element_at", "slice", "array_position", "sequence", "rint", "log1p", "expm1", "overlay", "date_add", "date_sub", "array_min", "array_max", "locate", "instr", "lpad", "rpad", "substring",
+            "levenshtein", "format_string", "nanvl", "dayofweek"}
 
 
 def replay(ctx: Ctx, rp: dict) -> None:
     c = rp.get("case")
+    if rp.get("purity_probe"):
+        b = rp["purity_probe"]
+        n, bad, _ = stream_e(ctx)
+        again = [x for x in bad if x["method"] == b["method"] and x["receiver"] == b["receiver"]]
+        print(json.dumps({"probe": {k: b.get(k) for k in ("method", "receiver", "args")}, "still_writes_into_the_receiver": bool(again), "now": again[:1]}, indent=1, default=str))
+        if again:
+            vlib.report_violation(ctx, dict(rp, purity_probe=again[0]))
+        return
+    if c and c.get("fn") == "prog":
+        r = run_impl([c])[0]
+        fresh = run_impl_fresh([c])[0]
+        ref = prog_reference([c])[0]
+        print(json.dumps({"program": show_case(c), "sqlframe_on_duckdb_shared_objects": r, "sqlframe_on_duckdb_fresh_objects": fresh, "pyspark_meaning": ref, "recorded_spark": rp.get("spark")}, indent=1, default=str))
+        if not impl_is(r, ref, False) or (rp.get("spark") is not None and not impl_is(r, rp.get("spark"), False)):
+            vlib.report_violation(ctx, dict(rp, sqlframe_on_duckdb=r))
+        return
     if not c:
         print("replay names a broken obligation, not an input:", rp.get("broken"))
         return
@@ -711,5 +1249,5 @@ def replay(ctx: Ctx, rp: dict) -> None:
         return
     r = run_impl([c])[0]
     print(json.dumps({"call": show_case(c), "sqlframe_on_duckdb": r, "spark": rp.get("spark")}, indent=1, default=str))
-    if not ("value" in r and K.same_value(r["value"], rp.get("spark"), c.get("unordered", False))):
+    if not impl_is(r, rp.get("spark"), c.get("unordered", False)):
         vlib.report_violation(ctx, dict(rp, sqlframe_on_duckdb=r))
